@@ -259,7 +259,14 @@ impl Host {
     }
 
     fn raw_poll_at(&mut self, now: Micros) -> Option<Micros> {
-        self.iface.v.poll_at(inst(now), &self.sockets.v).map(|i| i.total_micros())
+        let at = self.iface.v.poll_at(inst(now), &self.sockets.v).map(|i| i.total_micros());
+        if let Some(p) = self.probe.as_mut() {
+            // poll_delay is the same schedule expressed as a duration: it must agree with poll_at
+            let delay = self.iface.v.poll_delay(inst(now), &self.sockets.v).map(|d| d.total_micros() as Micros);
+            let want = at.map(|t| (t - now).max(0));
+            p.judge_delay(now, at, delay, want);
+        }
+        at
     }
 
     /// a route of the interface expires at an instant in (a, b]
